@@ -760,11 +760,15 @@ impl XmlAttribute {
     }
 
     fn namespace(&self) -> bool {
-        // xmlns:p="..." and xmlns="..."; p:xmlns="..." is an ordinary attribute
-        match self.prefix() {
-            Some(p) => p == "xmlns",
-            None => self.local_name() == "xmlns",
-        }
+        is_namespace_declaration(self.prefix(), self.local_name())
+    }
+}
+
+/// xmlns:p="..." and xmlns="..."; p:xmlns="..." is an ordinary attribute
+fn is_namespace_declaration(prefix: Option<&str>, local_name: &str) -> bool {
+    match prefix {
+        Some(p) => p == "xmlns",
+        None => local_name == "xmlns",
     }
 }
 
@@ -2215,7 +2219,9 @@ impl Element for XmlElement {
         let mut items = self.attributes_specified();
 
         for attr in self.declaration_att_defs().as_slice() {
+            // a defaulted xmlns / xmlns:p is a namespace declaration, see namespace_attributes
             if attr.value != XmlDeclarationAttDefault::Implied
+                && !is_namespace_declaration(attr.prefix(), attr.local_name())
                 && !items
                     .iter()
                     .any(|v| equal_qname(v.borrow().qname(), attr.qname()))
@@ -2230,12 +2236,27 @@ impl Element for XmlElement {
     }
 
     fn namespace_attributes(&self) -> UnorderedSet<XmlNode<XmlAttribute>> {
-        let items = self
+        let mut items: Vec<XmlNode<XmlAttribute>> = self
             .attributes
             .iter()
             .filter_map(|v| v.as_attribute())
             .filter(|v| v.borrow().namespace())
             .collect();
+
+        // a namespace declaration may be defaulted from the DTD like any attribute
+        for attr in self.declaration_att_defs().as_slice() {
+            if matches!(attr.value, XmlDeclarationAttDefault::Value(_, _))
+                && is_namespace_declaration(attr.prefix(), attr.local_name())
+                && !items
+                    .iter()
+                    .any(|v| equal_qname(v.borrow().qname(), attr.qname()))
+            {
+                let item = XmlAttribute::new_from_declaration(attr, self.context());
+                item.borrow_mut().set_parent_id(Some(self.id()));
+                items.push(item);
+            }
+        }
+
         UnorderedSet::new(items)
     }
 
